@@ -85,6 +85,57 @@ def run_replay_file(path: str, outdir: str) -> dict:
         return json.load(f)
 
 
+def prefix_replay(rp: dict, v: dict, path: str, outdir: str, budget_s: float = 90.0) -> bool:
+    """The run's own choices do not show the violation in a fresh interpreter: try the run *after the runs that came
+    before it in its batch* (state kept across independent histories).  On success the replay file at `path` is
+    rewritten as kind batch-prefix with a shrunk list of earlier runs, confirmed twice from fresh interpreters."""
+    t0 = time.time()
+    r = int(v["r"])
+
+    def attempt(runs):
+        q = dict(rp, kind="batch-prefix", runs=runs, choices=[], log_digest=None)
+        tmp = path + ".try"
+        with open(tmp, "w") as f:
+            json.dump(q, f, default=repr)
+        res = run_replay_file(tmp, outdir)
+        os.remove(tmp)
+        return res if res.get("reproduced") else None
+
+    runs = list(range(r + 1))
+    res = attempt(runs)
+    if res is None:
+        return False
+    # shrink the list of earlier runs (delta debugging over fresh interpreters)
+    n = 2
+    while len(runs) > 1 and time.time() - t0 < budget_s:
+        before = runs[:-1]
+        size = max(1, len(before) // n)
+        cut = False
+        for i in range(0, len(before), size):
+            cand = before[:i] + before[i + size:] + [r]
+            got = attempt(cand)
+            if got is not None:
+                runs, res, cut = cand, got, True
+                n = max(2, n - 1)
+                break
+            if time.time() - t0 > budget_s:
+                break
+        if not cut:
+            if size == 1:
+                break
+            n = min(len(before), n * 2)
+    again = attempt(runs)
+    if again is None or again.get("log_digest") != res.get("log_digest"):
+        return False
+    rp.update(kind="batch-prefix", runs=runs, choices=[], log_digest=res["log_digest"], trace=res.get("trace"),
+              note="the violation shows in the last listed run only after the earlier listed runs of the same batch "
+                   "have happened in the same interpreter: state is kept across independent histories")
+    v.update(choices=[], orig_len=r + 1, history_dependent=len(runs))
+    with open(path, "w") as f:
+        json.dump(rp, f, indent=1, default=repr)
+    return True
+
+
 def cmd_replay(path: str) -> int:
     ensure_deps()
     with open(path) as f:
@@ -224,8 +275,10 @@ def cmd_check(prop: str, tier: str, seed: int, workers: int) -> int:
             rp.update(kind="batch-order", batch_runs=v["batch_runs"], batch_seed=v["batch_seed"])
         with open(path, "w") as f:
             json.dump(rp, f, indent=1, default=repr)
-        res = run_replay_file(path, outdir)
+        res = {} if v.get("prefix_only") else run_replay_file(path, outdir)
         if res.get("reproduced") and res.get("log_digest") == v["log_digest"]:
+            reported.append((key, path, v))
+        elif v.get("r") is not None and prefix_replay(rp, v, path, outdir):
             reported.append((key, path, v))
         else:
             errors.append(f"nondeterministic replay for {key}: fresh interpreter gave keys={res.get('keys')} "
@@ -280,6 +333,11 @@ def cmd_check(prop: str, tier: str, seed: int, workers: int) -> int:
         desc = known[k].get("description", "")
         print(f"KNOWN-FINDING: property={prop} {k} ({kn['count']} runs) {desc}")
     for key, path, v in reported:
+        if v.get("history_dependent"):
+            print(f"  violation {key} in {v['count']} runs; shows only after earlier runs of its batch: "
+                  f"{v['orig_len']} -> {v['history_dependent']} runs in the replay; detail={json.dumps(v['detail'], default=repr)[:400]}")
+            print(f"VIOLATION property={prop} replay={path}")
+            continue
         print(f"  violation {key} in {v['count']} runs; minimised {v['orig_len']} -> {len(v['choices'])} choices; "
               f"detail={json.dumps(v['detail'], default=repr)[:400]}")
         print(f"VIOLATION property={prop} replay={path}")
